@@ -671,14 +671,15 @@ func c01Judge(w *core.W, p *project, exp verdict, family, pos string, t *tv) {
 		w.Class("no-claim:" + family)
 		return
 	}
-	var err error
+	var err, err2 error
 	rec, site := guard(func() {
 		root, berr := buildProject(p)
 		if berr != nil {
-			err = berr
+			err, err2 = berr, berr
 			return
 		}
 		err = root.Check()
+		err2 = root.Check() // the verdict is the schema's, not the first call's
 	})
 	wit, _ := stdjson.Marshal(c01Wit{TV: t, Pos: pos, P: p, Exp: exp.String()})
 	in := p.describe()
@@ -690,6 +691,11 @@ func c01Judge(w *core.W, p *project, exp verdict, family, pos string, t *tv) {
 	got := accept
 	if err != nil {
 		got = reject
+	}
+	if (err == nil) != (err2 == nil) || errStr(err) != errStr(err2) {
+		w.Violate(core.Violation{Clause: "verdict-stable-on-repeat", Entry: pos, Input: p.describe(), Witness: wit,
+			Detail: fmt.Sprintf("first Check(): %s; second Check() on the same object: %s", errStr(err), errStr(err2)), Sig: map[string]string{"family": family}})
+		return
 	}
 	w.Class(fmt.Sprintf("%s:%s", family, exp))
 	if got != exp {
